@@ -12,4 +12,7 @@ func NewHaqq
     structural
     wired c14_staking_bank: x/staking/keeper.NewKeeper arg 3 from haqq/x/bank/keeper.NewBaseKeeper
     wired c14_gov_bank: x/gov/keeper.NewKeeper arg 3 from haqq/x/bank/keeper.NewBaseKeeper
+    // the redirect credits the community pool record of the DISTRIBUTION store: the haqq bank keeper is constructed over that store's key
+    wired c14_distr_store: haqq/x/bank/keeper.NewBaseKeeper arg 2 from key:distribution
+    wired c14_bank_store: haqq/x/bank/keeper.NewBaseKeeper arg 1 from key:bank
 @*/
